@@ -104,6 +104,12 @@ def respects_commit_predicate(case, ans, n0):
         return []   # not a certificate that can verify
     bad = []
     idxs = list(range(n))
+    # a block for which a commit certificate is carried by the timeout certificate is committed: whatever is
+    # proposed next has a higher number (a certified block is never displaced by a fresh payload)
+    certified = [int(reports[assign[i]][1]["msg"]["h"]["n"]) for i in signers if reports[assign[i]][1] is not None]
+    if certified and ans is not None and ans[0] <= max(certified):
+        bad.append(f"the certificate carries a commit certificate for block {max(certified)} but implies block ({ans[0]}, {ans[1]}): a certified block would be displaced")
+        return bad
     for blk in ((n0, 1), (n0, 2)):
         for qmask in range(1, 1 << n):
             Q = [i for i in idxs if qmask >> i & 1]
